@@ -73,6 +73,8 @@ impl<T> Receiver<T> {
         // register the waker
         self.0.receiver.register(cx.waker());
 
+        verif_failpoint!("spsc.recv.poll_slice.after_register");
+
         // check once more to avoid a loss of notification
         acquire_filled!();
 
